@@ -40,14 +40,15 @@ MANIFEST = dict(
          'skeleton; induction on fuel. '
          'Tie: jedi = mayE (exact, modulo the API-level merge of a class with its instance) and CPython = evalC '
          '(exact, nested shapes) on generated programs. '
-         'Argument binding (Model/ArgBind): bind_agrees_partial - for EVERY grammatical signature (any number of '
+         'Argument binding (Model/ArgBind): bind_agrees (FULL) - for EVERY grammatical signature (any number of '
          'positional parameters, defaults, *args, keyword-only parameters, **kwargs) and EVERY call with distinct '
          'keywords that CPython accepts, bindJ (statement-by-statement transcription of '
          'param.py:get_executed_param_names_and_issues with its PushBackIterator, instantiated with constants read '
          'from the source) binds every parameter to exactly what CPython binds (bindPy); proved by induction over '
-         'the parameter loop with an invariant on the iterator / keys_used / non_matching_keys; hypothesis '
-         'kwsAvoidStarNames is forced (bind_agrees_full_witness: `def f(**kw)` / `f(kw=A)`, replayed on the real '
-         'code); bind_best_effort, bindJ_total, bind_without_push_back_loses_keyword, bind_source_is_modelled. '
+         'the parameter loop with an invariant on the iterator / keys_used / non_matching_keys; '
+         'bind_agrees_old_code_witness: with the *args/**kwargs names in param_dict (the source before the repair, '
+         '`def f(**kw)` / `f(kw=A)`) the statement is false; bind_best_effort, bindJ_total, '
+         'bind_without_push_back_loses_keyword, bind_source_is_modelled. '
          'Tie: the real function = bindJ and CPython = bindPy, both exact, on all small signatures x calls.',
     note='Modelled not verified: only the PyCore fragment is under the theorem (no loops, attribute writes outside __init__, '
          'generators, decorators, containers other than tuples, multi-module). The pretty-printer of the harness '
@@ -400,7 +401,8 @@ def bind_items(ctx):
     for p in sorted(glob.glob(os.path.join(common.CORPUS_DIR, 'C02', 'bind*.json'))):
         with open(p, encoding='utf-8') as f:
             for c in json.load(f).get('cases', []):
-                items.append({'sig': c['sig'], 'calls': c['calls'], 'oracle_all': True, 'src': 'corpus'})
+                items.append({'sig': c['sig'], 'calls': c['calls'], 'oracle_all': True, 'src': 'corpus',
+                              'expect': c.get('expect')})
     # (max pos params, max kw-only params, max positional args, max keyword args)
     scopes = [(1, 1, 2, 2)] if ctx.quick else [(2, 2, 3, 2), (1, 1, 3, 3), (3, 0, 4, 1)]
     seen = set()
@@ -498,27 +500,37 @@ def run_bind(ctx, answers, how):
                     # the specification model disagrees with CPython: model bug
                     ctx.tie_broken('correspondence:bindpy', short(
                         {'signature': key[0], 'call': key[1], 'cpython': py, 'model': mpy}, 1500))
-            # the theorem's claim, on the real things: whenever CPython accepts the call and no
-            # keyword is spelled like *args/**kwargs, jedi binds what CPython binds
-            # (and, not under a theorem: reports no issue)
+            # the theorem's claim, on the real things: whenever CPython accepts the call jedi binds
+            # what CPython binds (and, not under a theorem: reports no issue)
             if py is not None:
                 n_acc += 1
-                if not A.kw_spelled_like_star(sig, call):
+                if A.kw_spelled_like_star(sig, call):
                     n_thm += 1
-                    if real['env'] != py:
-                        ctx.tie_broken('theorem-vs-implementation:bind_agrees_partial', short(
-                            {'signature': key[0], 'call': key[1], 'jedi': real, 'cpython': py}, 1500))
-                        if (sig, call) not in suspects:
-                            suspects.append((sig, call))
-                    elif real['issues']:
-                        ctx.tie_broken('expectation:accepted-call-reports-no-issue', short(
-                            {'signature': key[0], 'call': key[1], 'jedi': real}, 1500))
-                        if (sig, call) not in suspects:
-                            suspects.append((sig, call))
+                if real['env'] != py:
+                    ctx.tie_broken('theorem-vs-implementation:bind_agrees', short(
+                        {'signature': key[0], 'call': key[1], 'jedi': real, 'cpython': py}, 1500))
+                    if (sig, call) not in suspects:
+                        suspects.append((sig, call))
+                elif real['issues']:
+                    ctx.tie_broken('expectation:accepted-call-reports-no-issue', short(
+                        {'signature': key[0], 'call': key[1], 'jedi': real}, 1500))
+                    if (sig, call) not in suspects:
+                        suspects.append((sig, call))
+            # regression inputs of the corpus state the binding they expect from jedi
+            exp = (it.get('expect') or {}).get(str(ci))
+            if exp is not None:
+                ctx.count('bind', ('expect',) + key, nontrivial=True, bucket='corpus-expect')
+                if real['env'] != exp:
+                    ctx.fail('bind', 'regression input: get_executed_param_names binds the parameters differently',
+                             {'signature': key[0], 'call': key[1], 'shape': 'corpus-expect',
+                              'source': 'def f(%s): pass\nf(%s)\n' % key, 'line': 2, 'column': 0},
+                             expected=exp, observed=real['env'],
+                             how='harness/props/c02.py:_real_bindings(sig, [call]) - the real '
+                                 'jedi.inference.param.get_executed_param_names_and_issues')
         for ci, recs in out['oracle'].items():
             judge_bind_oracle(ctx, recs, sig, it['calls'][int(ci)], how)
-    ctx.notes.append('bind: %d signature/call pairs, %d accepted by CPython, %d under the hypotheses of '
-                     'bind_agrees_partial' % (k, n_acc, n_thm))
+    ctx.notes.append('bind: %d signature/call pairs, %d accepted by CPython (all under bind_agrees), %d of them '
+                     'with a keyword spelled like *args/**kwargs' % (k, n_acc, n_thm))
     # failing-input search on the disagreements: the property itself on that very signature/call
     if suspects:
         todo = [{'sig': sg, 'call': c} for sg, c in suspects[:80]]
